@@ -561,6 +561,45 @@ func ruleRC6() Rule {
 					return true
 				})
 			}
+			// a closer also counts as matched when the function the lexer dispatches
+			// to for that token rewrites or reads the stack top (lexThen, lexDo, …):
+			// weakening that function's own equality test only changes how far the
+			// lexer runs on input the grammar rejects anyway
+			for _, f := range c.funcsOfPkg("parser", false) {
+				info := f.Info()
+				f.OwnNodes(func(n ast.Node) bool {
+					cc, ok := n.(*ast.CaseClause)
+					if !ok || len(cc.Body) != 1 {
+						return true
+					}
+					ret, ok := cc.Body[0].(*ast.ReturnStmt)
+					if !ok || len(ret.Results) != 1 {
+						return true
+					}
+					se, ok := ret.Results[0].(*ast.SelectorExpr)
+					if !ok {
+						return true
+					}
+					fo, _ := info.Uses[se.Sel].(*types.Func)
+					g := c.P.FuncOf(fo)
+					if g == nil {
+						return true
+					}
+					touches := false
+					g.OwnNodes(func(x ast.Node) bool {
+						if ix, ok := x.(*ast.IndexExpr); ok && core.FieldOf(g.Info(), ix.X) == stack {
+							touches = true
+						}
+						return true
+					})
+					if touches {
+						for _, e := range cc.List {
+							compared[exprStr(e)] = true
+						}
+					}
+					return true
+				})
+			}
 			var names []string
 			for n := range pushed {
 				names = append(names, n)
